@@ -54,6 +54,20 @@ func pkgsOfContracts(cs *Contracts, props map[string]bool) []string {
 		}
 		set[fc.PkgPath] = true
 	}
+	for _, sw := range cs.Sweeps {
+		if props != nil {
+			hit := false
+			for _, p := range sw.Props {
+				if props[p] {
+					hit = true
+				}
+			}
+			if !hit {
+				continue
+			}
+		}
+		set[sw.PkgPath] = true
+	}
 	for _, lm := range cs.Lemmas {
 		if lm.PkgPath == "" {
 			continue
@@ -121,6 +135,21 @@ func cmdUnit(args []string) int {
 	}
 	var sel []*FuncContract
 	var lemmas []*Lemma
+	if len(cs.Sweeps) > 0 {
+		// sweeps can only be expanded against a loaded program: load the sweep packages first
+		pk0 := map[string]bool{}
+		for _, sw := range cs.Sweeps {
+			pk0[sw.PkgPath] = true
+		}
+		var l0 []string
+		for k := range pk0 {
+			l0 = append(l0, k)
+		}
+		if p0, err := loadProgram(*root, modPath, l0, "verif"); err == nil {
+			p0.Contracts = cs
+			p0.expandSweeps()
+		}
+	}
 	for k, fc := range cs.Funcs {
 		if !fc.Trusted && strings.Contains(k, *fname) {
 			sel = append(sel, fc)
@@ -156,6 +185,7 @@ func cmdUnit(args []string) int {
 		return 2
 	}
 	p.Contracts = cs
+	p.expandSweeps()
 	fmt.Printf("loaded %v in %.1fs\n", pkgs, time.Since(t0).Seconds())
 	rc := 0
 	report := func(ur *UnitResult) {
@@ -186,6 +216,11 @@ func cmdUnit(args []string) int {
 				}
 				if *verbose {
 					fmt.Println(o.Failing.Output)
+				}
+				if len(o.AllFailing) > 1 {
+					for _, f := range o.AllFailing[1:] {
+						fmt.Printf("       also: %s %s | %s | %s\n", f.Status, f.Q.Pos, f.Q.Kind, f.Q.Src)
+					}
 				}
 			}
 		}
